@@ -58,9 +58,10 @@ def _closure_arg(node):
     return None
 
 
-def _closure_of(F, fn, call):
-    """The closure (Fn) passed to an iterator adapter call, if any."""
+def _closures_of(F, fn, call):
+    """The closures (Fn) passed to an iterator adapter call."""
     defs = mir.defs_of(fn)
+    out = []
     for a in call.get("a", [])[1:]:
         if "l" not in a:
             continue
@@ -68,8 +69,14 @@ def _closure_of(F, fn, call):
             if k == "agg" and st["r"].get("closure"):
                 for cid in F.children.get(fn.id, []):
                     if F.fns[cid].id == st["r"]["closure"] or F.fns[cid].get("f") == st["r"]["closure"]:
-                        return F.fns[cid]
-    return None
+                        out.append(F.fns[cid])
+    return out
+
+
+def _closure_of(F, fn, call):
+    """The last closure passed to an iterator adapter call (the per-item one for map_init / map_with style adapters), if any."""
+    ks = _closures_of(F, fn, call)
+    return ks[-1] if ks else None
 
 
 def _is_test_of(fn, o, item_root):
@@ -93,6 +100,7 @@ def _walk_stream(F, fn, o, hops=16):
     'paired' (items are (entry, entry.kind.test()) pairs made by one closure), 'entries' (plain stream over a collection),
     'zip-mismatch', or 'unknown'; `selective` counts the adapters that drop or reorder items for a reason other than not being a test."""
     selective = 0
+    testsel = 0
     while hops > 0:
         hops -= 1
         r, fl = _origin(fn, o)
@@ -103,27 +111,28 @@ def _walk_stream(F, fn, o, hops=16):
                 if fn.id in F.children.get(pf.id, []):
                     parent = pf
             if parent is None:
-                return "unknown", f"captured variable of {fn.name} with no parent", selective
+                return "unknown", f"captured variable of {fn.name} with no parent", (selective, testsel)
             nxt = None
             for _, _, st in parent.stmts():
                 if st["r"]["k"] == "agg" and st["r"].get("closure") and st["r"].get("closure") in (fn.id, fn.get("f")):
                     nxt = st["r"]["o"][int(fl[0])]
             if nxt is None:
-                return "unknown", f"closure creation of {fn.name} not found", selective
+                return "unknown", f"closure creation of {fn.name} not found", (selective, testsel)
             fn, o = parent, nxt
             continue
         if r[0] != "call":
-            return "entries", f"{r} {fl}", selective
+            return "entries", f"{r} {fl}", (selective, testsel)
         call = r[1]
         nm = call.get("fp", "")
         if re.search(r"::zip$", nm):
             va, da, sa = _walk_stream(F, fn, call["a"][0], hops)
             vb, db, sb = _walk_stream(F, fn, call["a"][1], hops)
-            if sa != sb:
-                return "zip-mismatch", f"the two zipped streams drop different items ({sa} vs {sb} selective adapters besides the is-a-test filter)", selective
+            if sa != sb or (sa[1] > 0) != (sb[1] > 0):
+                return "zip-mismatch", f"the two zipped streams drop different items ((selective adapters, is-a-test selections): {sa} vs {sb})", (selective, testsel)
+            sa, sb = sa[0], sb[0]
             if sa and sb:
-                return "unknown", "zip of two streams that are both filtered: equivalence of the filters is not decided", selective
-            return "zip-ok", f"{da} / {db}", selective
+                return "unknown", "zip of two streams that are both filtered: equivalence of the filters is not decided", (selective, testsel)
+            return "zip-ok", f"{da} / {db}", (selective, testsel)
         k = _closure_of(F, fn, call)
         if re.search(r"::(filter_map|map)$", nm) and k is not None:
             # does this closure make the pair?
@@ -135,14 +144,19 @@ def _walk_stream(F, fn, o, hops=16):
                 item = ("param", 2)
                 good = all(_origin(k, st["r"]["o"][0]) == (item, []) and _is_test_of(k, st["r"]["o"][1], item) for st in pairs)
                 if good:
-                    return "paired", k.name, selective
-                return "unknown", f"{k.name} builds a pair that is not (entry, entry.kind.test())", selective
-            if re.search(r"::filter_map$", nm) and not _only_tests_for_testness(F, k):
-                selective += 1
+                    return "paired", k.name, (selective, testsel)
+                return "unknown", f"{k.name} builds a pair that is not (entry, entry.kind.test())", (selective, testsel)
+            if re.search(r"::filter_map$", nm):
+                if _only_tests_for_testness(F, k):
+                    testsel += 1
+                else:
+                    selective += 1
             o = call["a"][0]
             continue
         if re.search(r"::filter$", nm) and k is not None:
-            if not _only_tests_for_testness(F, k):
+            if _only_tests_for_testness(F, k):
+                testsel += 1
+            else:
                 selective += 1
             o = call["a"][0]
             continue
@@ -153,8 +167,8 @@ def _walk_stream(F, fn, o, hops=16):
             selective += 1
             o = call["a"][0]
             continue
-        return "entries", nm, selective
-    return "unknown", "too long", selective
+        return "entries", nm, (selective, testsel)
+    return "unknown", "too long", (selective, testsel)
 
 
 def _rule_pairing(rep, F, rt, c, bt):
